@@ -31,6 +31,7 @@ type ctx struct {
 	children []*ctx
 	deadline time.Time
 	hasDl    bool
+	cause    error
 }
 
 func (c *ctx) Done() *vmc.Chan[struct{}] { return c.done }
@@ -106,4 +107,55 @@ func WithTimeout(parent Context, d time.Duration) (Context, CancelFunc) {
 // WithDeadline derives a context cancelled at t.
 func WithDeadline(parent Context, t time.Time) (Context, CancelFunc) {
 	return WithTimeout(parent, t.Sub(vmc.Now()))
+}
+
+
+// CancelCauseFunc cancels with a cause.
+type CancelCauseFunc = func(cause error)
+
+// WithCancelCause derives a cancellable context remembering the cause.
+func WithCancelCause(parent Context) (Context, CancelCauseFunc) {
+	c := newChild(parent)
+	return c, func(cause error) {
+		if c.cause == nil {
+			c.cause = cause
+		}
+		c.cancel(Canceled)
+	}
+}
+
+// Cause returns the cause of the cancellation.
+func Cause(c Context) error {
+	if x, ok := c.(*ctx); ok {
+		for p := x; p != nil; p = p.parent {
+			if p.cause != nil {
+				return p.cause
+			}
+		}
+	}
+	return c.Err()
+}
+
+// WithValue is transparent (values are not modelled).
+func WithValue(parent Context, key, val any) Context { return parent }
+
+// WithoutCancel returns a context that is never cancelled.
+func WithoutCancel(parent Context) Context { return Background() }
+
+// AfterFunc runs f in its own goroutine once the context is done; returns a stop function.
+func AfterFunc(c Context, f func()) (stop func() bool) {
+	stopped := false
+	started := false
+	vmc.Go(func() {
+		c.Done().Recv()
+		if !stopped {
+			started = true
+			f()
+		}
+	})
+	return func() bool {
+		was := !stopped && !started
+		stopped = true
+		return was
+	}
 }
